@@ -44,10 +44,11 @@ Proof. vm_compute. repeat split; try reflexivity. eexists. eexists. reflexivity.
    Oracle premises are part of [has_type]: a float / big.Float / non-integral big.Rat is given by the
    text the standard library formats it to, and that text parses back to itself (strconv and math/big
    round trip, checked against the real library by the correspondence run).
-   Guard / what is missing: top-level scalar destinations only.  Pointers, interface{} positions,
-   slices, arrays, maps and structs (the tree fragment) and shared or cyclic graphs are not proved
-   here: the decoder model is a store-passing interpreter (Model/DecVal.v) and the frame reasoning for
-   containers has not been done; those cells are covered on every run by the correspondence of the
+   Guard / what is missing: top-level scalar destinations only.  Slices, arrays, maps and structs of
+   scalars in simple mode are proved further down (C01_roundtrip_slices_partial, _maps_partial,
+   _structs_partial).  Pointers, interface{} positions, nested containers, reference mode for containers
+   and shared or cyclic graphs are not proved: the decoder model is a store-passing interpreter
+   (Model/DecVal.v) and that frame reasoning has not been done; those cells are covered on every run by the correspondence of the
    decoder model with io.Decoder (checks/C06.py: ~27,000 cases, all container positions) and by the
    direct Unmarshal(Marshal(v)) oracle of checks/C01.py. *)
 Theorem C01_roundtrip_partial :
@@ -71,3 +72,110 @@ Example roundtrip_instances :
                  o_listslice := false; o_registered := [] |} [] 5 (TInt KUint64) (WLong 18446744073709551615)
     = OOk (XInt KUint64 18446744073709551615).
 Proof. cbv zeta. do 8 (split; [vm_compute; reflexivity|]). vm_compute; reflexivity. Qed.
+
+(* ============================================================ decoder half, containers (C06 development) *)
+From HV Require Import Proofs.RoundTripSeq.
+
+(* C01_roundtrip for sequences, proved part.  e is any scalar type of [has_type] except uint8
+   ([elem_type]; []uint8 and [n]uint8 are the bytes routines, covered by C01_roundtrip_partial as []byte
+   resp. not proved for byte arrays).  For every list vs of Go values of type e, of ANY length:
+   the token the encoder model writes for the slice (or array) in simple mode decodes with the decoder
+   model, under any decoder options, into a nil []e variable as a slice of exactly those elements in
+   order; into a [len vs]e array variable as exactly those elements.  The slice proof follows the real
+   allocation scheme (min(count,16) elements reserved, then UnsafeGrow one element at a time with
+   reflect2's capacity doubling, a new backing array per reallocation, Len set at the end).
+   [same_seq]: the model decodes the empty list 'a{}' into the untouched (nil) header, so for vs = []
+   the result is XNil; the spec of C06 identifies nil and empty slices ([xeqv]).
+   Guard / what is missing: simple mode only (in reference mode the encoder state changes with every
+   string element and the decoder's reference list would have to be shown to stay aligned - not done);
+   element types are scalars: no nested containers, pointers or interface{} elements; a top-level
+   destination only. *)
+Theorem C01_roundtrip_slices_partial :
+  forall orc opts te e vs fuel st' w f,
+    elem_type e = true ->
+    forallb (has_type orc e) vs = true ->
+    enc true [] fuel einit (GSlice vs) = EOk st' w ->
+    (exists y, dec_top orc opts te (S (S f)) (TSlice e) w = OOk y /\ same_seq y vs) /\
+    (exists ys, dec_top orc opts te (S (S f)) (TArray (length vs) e) w = OOk (XArr ys) /\
+                Forall2 (fun a v => same a v = true) ys vs).
+Proof.
+  intros orc opts te e vs fuel st' w f He Hall Henc. split.
+  - exact (roundtrip_slice orc opts te e vs fuel st' w f He Hall Henc).
+  - exact (roundtrip_array orc opts te e vs fuel st' w f He Hall Henc).
+Qed.
+Print Assumptions C01_roundtrip_slices_partial.
+
+(* Maps.  k is a comparable scalar type ([key_type]: bool, integers, floats, complex, string, time.Time,
+   uuid.UUID), v any scalar type of [has_type]; ps the entries in the order the encoder visits them.
+   In simple mode the written token decodes into a nil map[k]v variable as the map obtained by
+   inserting the decoded entries one after another with Go's key equality ([kv_fold]/[kv_set]: an equal
+   key - e.g. +0 and -0 - overwrites).  When the decoded keys are pairwise different, which is the case
+   for the entries of a real Go map, that is exactly the entries themselves, in order
+   (second statement).  Same guards as above. *)
+Theorem C01_roundtrip_maps_partial :
+  forall orc opts te k v ps fuel st' w f,
+    key_type k = true ->
+    forallb (pair_typed orc k v) ps = true ->
+    enc true [] fuel einit (GMap (flat_pairs ps)) = EOk st' w ->
+    exists xps, dec_top orc opts te (S (S f)) (TMap k v) w = OOk (XMap (kv_fold [] xps)) /\
+                Forall2 (fun xp p => same (fst xp) (fst p) = true /\ same (snd xp) (snd p) = true) xps ps /\
+                (distinct_keys xps = true -> kv_fold [] xps = xps).
+Proof.
+  intros orc opts te k v ps fuel st' w f Hk Hall Henc.
+  destruct (roundtrip_map orc opts te k v ps fuel st' w f Hk Hall Henc) as (xps & Hd & Hs).
+  exists xps. split; [exact Hd|]. split; [exact Hs|]. intros Hdist. apply (kv_fold_distinct xps [] Hdist).
+Qed.
+Print Assumptions C01_roundtrip_maps_partial.
+
+(* Structs.  A registered struct type [name] whose fields (d: alias and type, in field order) all have
+   scalar types and pairwise different aliases; vs the field values.  In simple mode the class
+   definition and the object the encoder writes decode into a zero struct variable as exactly those
+   field values.  Same guards as above; struct values only (no pointers to structs, no embedded or
+   nested structs, no anonymous structs, no field skipped or missing on the wire). *)
+Theorem C01_roundtrip_structs_partial :
+  forall orc opts te name d vs fuel st' w f,
+    find_struct te name = Some d ->
+    distinct_aliases (map fst d) = true ->
+    fields_typed orc d vs = true ->
+    enc true [] fuel einit (GStruct name (map fst d) vs) = EOk st' w ->
+    exists xs, dec_top orc opts te (S (S (S f))) (TStruct name) w = OOk (XStruct name xs) /\
+               Forall2 (fun a v => same a v = true) xs vs.
+Proof. exact roundtrip_struct. Qed.
+Print Assumptions C01_roundtrip_structs_partial.
+
+(* the container fragment is inhabited: 20 ints (past the 16 preallocated elements, so the backing
+   array is reallocated), a map and a struct, through the encoder and the decoder models *)
+Example roundtrip_container_instances :
+  let orc := fun (_ _ : bytes) => @None bytes in
+  let opts := {| o_simple := true; o_long := LtInt; o_real := RlF64; o_simap := false; o_structval := false;
+                 o_listslice := false; o_registered := [] |} in
+  let vs := map (fun z => GInt KInt z) [0; 1; 2; 3; 4; 5; 6; 7; 8; 9; 10; 11; 12; 13; 14; 15; 16; 17; 18; 19]%Z in
+  let ps := [(GString (bs "a"), GInt KInt8 (-128)); (GString (bs "bc"), GInt KInt8 127)]%Z in
+  let te := [(bs "P", [(bs "x", TInt KInt); (bs "s", TString)])] in
+  (elem_type (TInt KInt) = true /\ forallb (has_type orc (TInt KInt)) vs = true) /\
+  (match enc true [] 5 einit (GSlice vs) with
+   | EOk _ w => match dec_top orc opts [] 5 (TSlice (TInt KInt)) w with
+                | OOk (XSlice ys) => Nat.eqb (length ys) 20 && forallb (fun p => same (fst p) (snd p)) (combine ys vs)
+                | _ => false end
+   | _ => false end = true) /\
+  (key_type TString = true /\ forallb (pair_typed orc TString (TInt KInt8)) ps = true) /\
+  (match enc true [] 5 einit (GMap (flat_pairs ps)) with
+   | EOk _ w => match dec_top orc opts [] 5 (TMap TString (TInt KInt8)) w with
+                | OOk (XMap [(XStr _, XInt KInt8 a); (XStr _, XInt KInt8 b)]) => Z.eqb a (-128) && Z.eqb b 127
+                | _ => false end
+   | _ => false end = true) /\
+  (fields_typed orc [(bs "x", TInt KInt); (bs "s", TString)] [GInt KInt 7%Z; GString (bs "hi")] = true) /\
+  (match enc true [] 5 einit (GStruct (bs "P") [bs "x"; bs "s"] [GInt KInt 7%Z; GString (bs "hi")]) with
+   | EOk _ w => match dec_top orc opts te 5 (TStruct (bs "P")) w with
+                | OOk (XStruct _ [XInt KInt a; XStr s]) => Z.eqb a 7 && bytes_eqb s (bs "hi")
+                | _ => false end
+   | _ => false end = true).
+Proof.
+  cbv zeta.
+  split; [split; vm_compute; reflexivity|].
+  split; [vm_compute; reflexivity|].
+  split; [split; vm_compute; reflexivity|].
+  split; [vm_compute; reflexivity|].
+  split; [vm_compute; reflexivity|].
+  vm_compute; reflexivity.
+Qed.
